@@ -26,6 +26,11 @@ def plan(tier, seed):
   for n in (2, 3, 4, 5):
     for cls in ("RoundRobinArbiter", "RoundRobinArbiterEn"):
       p.append({"kind": "rand", "cls": cls, "nreqs": n, "cycles": 600 if q else 8000, "hashseed": (seed * 5 + n) % 97, "embedded": True})
+  for n in (2, 3, 4, 6):
+    for cls in ("RoundRobinArbiter", "RoundRobinArbiterEn"):
+      for taps in ("last", "all", "some"):
+        # the parent taps single grant bits with whole 1-bit ports (s.val[i] //= s.arb.grants[i], the usual switch-allocator wiring)
+        p.append({"kind": "rand", "cls": cls, "nreqs": n, "cycles": 400 if q else 5000, "hashseed": (seed * 11 + n) % 97, "embedded": True, "taps": taps})
   for N in (5, 6, 8, 11):
     for cls in ("RoundRobinArbiter", "RoundRobinArbiterEn"):
       p.append({"kind": "gated", "cls": cls, "nreqs": 3 + N % 3, "gated": N, "cycles": 150 if q else 1500, "hashseed": (seed * 7 + N) % 97})
@@ -34,7 +39,7 @@ def plan(tier, seed):
 
 def thresholds(tier):
   t = {"exhaustive_sets_complete": 12, "cycles_judged": 30000, "random_cycles": 10000, "fairness_windows": 2000,
-       "resets_checked": 50, "hold_cycles_checked": 1000, "embedded_arbiters": 8, "twin_arbiter_comparisons": 500, "gated_designs": 8, "gated_arbiter_comparisons": 5000, "parent_register_checks": 5000}
+       "resets_checked": 50, "hold_cycles_checked": 1000, "embedded_arbiters": 8, "twin_arbiter_comparisons": 500, "gated_designs": 8, "gated_arbiter_comparisons": 5000, "parent_register_checks": 5000, "tapped_grant_bits_checked": 5000}
   if tier == "thorough":
     t.update({"exhaustive_sets_complete": 16, "cycles_judged": 400000, "random_cycles": 300000})
   return t
@@ -64,7 +69,7 @@ def ref_step(n, ptr, reqs, en, has_en):
 
 # --- driving the real thing -----------------------------------------------
 
-def emb_source(clsname, n, has_en, twin=False, nstat=0):
+def emb_source(clsname, n, has_en, twin=False, nstat=0, taps=()):
   """the arbiter inside a parent whose ONE update block drives the request bits one by one AND reads the grant bits: a cycle
   at block granularity (parent block -> arbiter blocks -> parent block) without any combinational loop at signal level"""
   L = ["from pymtl3 import *", f"from pymtl3.stdlib.basic_rtl.arbiters import {clsname}", "class Emb(Component):", "  def construct(s):",
@@ -80,6 +85,9 @@ def emb_source(clsname, n, has_en, twin=False, nstat=0):
     for i in range(n): L.append(f"      s.arb2.reqs[{i}] @= s.reqs[{i}]")
     for i in range(n): L.append(f"      s.grants2[{i}] @= s.arb2.grants[{i}]")
     if has_en: L.append("      s.arb2.en @= s.en")
+  if taps:
+    L.insert(6, f"    s.val = [OutPort() for _ in range({n})]")
+    for i in taps: L.insert(7, f"    s.val[{i}] //= s.arb.grants[{i}]")
   for j in range(nstat):
     # the parent keeps registers of its own beside the arbiter (grant statistics), each written by its own update_ff block
     if j == 0: L.insert(6, f"    s.cnt = [Wire(8) for _ in range({nstat})]")
@@ -88,13 +96,14 @@ def emb_source(clsname, n, has_en, twin=False, nstat=0):
   return "\n".join(L) + "\n"
 
 
-def mk(clsname, n, pg, embedded=False, twin=False, nstat=0):
+def mk(clsname, n, pg, embedded=False, twin=False, nstat=0, taps=()):
   from pymtl3 import DefaultPassGroup
   from pymtl3.passes.mamba.PassGroups import Mamba2020
   from pymtl3.stdlib.basic_rtl import arbiters
   if embedded:
     from vlib import specgen as G
-    a = G.load_source(emb_source(clsname, n, clsname.endswith("En"), twin, nstat), "c19emb").Emb()
+    a = G.load_source(emb_source(clsname, n, clsname.endswith("En"), twin, nstat, taps), "c19emb").Emb()
+    a._taps = tuple(taps)
   else:
     a = getattr(arbiters, clsname)(n)
   a.elaborate()
@@ -139,6 +148,10 @@ def cycle(sh, a, n, has_en, ptr, reqs, en, tag, tick_only=False):
     sh.violation("grant-iff-request-broken", dict(w, grants=bin(grants)))
   if grants != eg:
     sh.violation("grant-not-first-at-or-after-pointer", dict(w, grants=bin(grants), expected=bin(eg)))
+  for i in getattr(a, "_taps", ()):
+    sh.count("tapped_grant_bits_checked")
+    if int(a.val[i]) != (grants >> i) & 1:
+      sh.violation("tapped-grant-bit-differs-from-grants", dict(w, grants=bin(grants), bit=i, tap=int(a.val[i])))
   if hasattr(a, "grants2"):
     sh.count("twin_arbiter_comparisons")
     if int(a.grants2) != grants or int(a.arb2.priority_reg.out) != preg:
@@ -192,7 +205,9 @@ def run_rand(sh):
   rng = sh.rng("rand", clsname, n)
   emb = bool(sh.params.get("embedded"))
   nstat = (n % 4 if n % 4 else 4) if emb else 0          # n = 2, 3, 4, 5 -> 2, 3, 4, 1 registers of the parent's own
-  a = mk(clsname, n, rng.choice(["default", "mamba"]), embedded=emb, twin=emb and n % 2 == 1, nstat=nstat)
+  tk = sh.params.get("taps")
+  taps = () if not tk else (n - 1,) if tk == "last" else tuple(range(n)) if tk == "all" else tuple(sorted(rng.sample(range(n), rng.randrange(1, n))))
+  a = mk(clsname, n, rng.choice(["default", "mamba"]), embedded=emb, twin=emb and n % 2 == 1, nstat=nstat, taps=taps)
   exp_cnt = [0] * nstat
   tag = clsname + ("(embedded)" if emb else "")
   if emb: sh.count("embedded_arbiters")
